@@ -44,6 +44,8 @@ def setup_sym(R):
     R.bip39, R.base_wallet
 
     def urandom(n):
+        if FAIL_OS[0]:
+            raise NotImplementedError("no OS randomness source")
         if not isinstance(n, int):
             n = n.__index__()
         vs = [z3.BitVec("U%d_%d" % (len(S.u_calls), i), 8) for i in range(n)]
@@ -189,6 +191,34 @@ def fresh_sym(E, R, nwords, via, testnet):
     return "ok"
 
 
+FAIL_OS = [False]
+
+
+def os_unavailable(E, R, nwords, via, testnet):
+    """when the operating system's source cannot deliver (os.urandom raises NotImplementedError) no wallet is
+    produced -- in particular no fall-back to another generator"""
+    f = _entry(R, via, nwords, testnet)
+    if E.symbolic:
+        S.u_calls, S.m_vars, S.captured = [], [], []
+        FAIL_OS[0] = True
+        try:
+            r = E.run(f)
+        finally:
+            FAIL_OS[0] = False
+    else:
+        def boom(n):
+            raise NotImplementedError("no OS randomness source")
+        saved = (os.urandom, _random._urandom)
+        os.urandom = boom
+        _random._urandom = boom
+        try:
+            r = E.run(f)
+        finally:
+            os.urandom, _random._urandom = saved
+    E.check(isinstance(r, Raised), "no mnemonic is produced when the OS random source is unavailable")
+    return "refused"
+
+
 def fresh_native(E, R, nwords, via, testnet):
     """replay: meter and control os.urandom from outside"""
     f = _entry(R, via, nwords, testnet)
@@ -239,6 +269,9 @@ def cases(tier):
             for via in ("new_wallet", "from_entropy_bits"):
                 cs.append(Case("fresh[%d,%s,testnet=%s]" % (n, via, t), "fresh", dict(nwords=n, via=via, testnet=t),
                                need=("the ENT entropy bits are ENT distinct OS bits (distinct draws give distinct wallets)",)))
+    for n, via, t in ((12, "bits", False), (24, "new_wallet", True), (18, "from_entropy_bits", False)):
+        cs.append(Case("os_unavailable[%d,%s]" % (n, via), "os_unavailable", dict(nwords=n, via=via, testnet=t),
+                       need=("no mnemonic is produced when the OS random source is unavailable",)))
     return cs
 
 
